@@ -30,6 +30,7 @@ MCWide == {[factored |-> TRUE, pops |-> <<128, 128>>, proj |-> <<257, 257>>,
 MCScenariosQuick == {s \in MCScenarios : s.pops \in {<<600>>, <<90>>, <<40, 45>>, <<40, 30, 20>>} /\ s.proj # <<601>>}
                     \* 1200 chromosomes down to 1100: C(1200, 1100) is finite, the cells beyond the ALT count are exactly zero
                     \cup {[pops |-> <<600>>, proj |-> <<1101>>, recs |-> <<R1(600, 1), R1(600, 2), R1(600, 1199), R1(580, 5), R1(560, 600)>>]}
-                    \cup {[pops |-> <<600>>, proj |-> <<601>>, recs |-> <<R1(600, 0), R1(600, 1), R1(600, 2), R1(550, 37)>>]}
+                    \* the last two: fewer REF alleles than draws (the "impossible outcome" guard of the log-space branch must compare with draws - observed)
+                    \cup {[pops |-> <<600>>, proj |-> <<601>>, recs |-> <<R1(600, 0), R1(600, 1), R1(600, 2), R1(550, 37), R1(600, 1199), R1(600, 1000)>>]}
 ASSUME \A s \in MCScenarios \cup MCJoint \cup MCWide : Len(s.pops) = Len(s.proj)
 =============================================================================
